@@ -21,9 +21,12 @@ pub trait IterManager {
     fn prod_alive(&self) -> bool;
     fn work_alive(&self) -> bool;
     fn cons_alive(&self) -> bool;
-    fn set_prod_alive(&self, alive: bool);
-    fn set_work_alive(&self, alive: bool);
-    fn set_cons_alive(&self, alive: bool);
+    /// Sets the liveness flag of the producer; returns `true` if no iterator is alive afterwards.
+    fn set_prod_alive(&self, alive: bool) -> bool;
+    /// Sets the liveness flag of the worker; returns `true` if no iterator is alive afterwards.
+    fn set_work_alive(&self, alive: bool) -> bool;
+    /// Sets the liveness flag of the consumer; returns `true` if no iterator is alive afterwards.
+    fn set_cons_alive(&self, alive: bool) -> bool;
 }
 
 /// Trait used to manage storage.
